@@ -10,14 +10,14 @@ HARNESS = dict(name="iter", source="iter.cpp", san=False,
 
 KINDS = {
     # kind: (categories, writable, min length, max length, needs sorted distinct values)
-    "vec": (("lv", "const", "rv"), True, 0, 6, False),
-    "deq": (("lv", "const", "rv"), True, 0, 6, False),
-    "list": (("lv", "const", "rv"), True, 0, 6, False),
-    "fv": (("lv", "const", "rv"), True, 0, 6, False),
-    "fvp": (("lv", "const", "rv"), True, 0, 6, False),   # a fixed_vector with stale slots behind its end
-    "arr": (("lv", "const", "rv"), True, 0, 6, False),
-    "set": (("lv", "const", "rv"), False, 0, 6, True),
-    "map": (("lv", "const", "rv"), False, 0, 6, True),
+    "vec": (("lv", "const", "rv", "prv", "cprv"), True, 0, 6, False),
+    "deq": (("lv", "const", "rv", "prv", "cprv"), True, 0, 6, False),
+    "list": (("lv", "const", "rv", "prv", "cprv"), True, 0, 6, False),
+    "fv": (("lv", "const", "rv", "prv", "cprv"), True, 0, 6, False),
+    "fvp": (("lv", "const", "rv", "prv", "cprv"), True, 0, 6, False),   # a fixed_vector with stale slots behind its end
+    "arr": (("lv", "const", "rv", "prv", "cprv"), True, 0, 6, False),
+    "set": (("lv", "const", "rv", "prv", "cprv"), False, 0, 6, True),
+    "map": (("lv", "const", "rv", "prv", "cprv"), False, 0, 6, True),
     "carr": (("lv", "const"), True, 1, 6, False),
     "il": (("rv",), False, 1, 4, False),
 }
